@@ -1,6 +1,7 @@
 mod common;
 mod c12;
 mod c15;
+mod c16;
 mod c18;
 mod dist;
 
@@ -17,6 +18,7 @@ fn main() {
             match prop.as_str() {
                 "C12" => c12::replay(cases, verd),
                 "C15" => c15::replay(cases, verd),
+                "C16" => c16::replay(cases, verd),
                 "C18" => c18::replay(cases, verd, args.get(5).and_then(|s| s.parse().ok()).unwrap_or(2)),
                 _ => {
                     eprintln!("no replay table for {}", prop);
